@@ -573,6 +573,12 @@ fn sub_aug(_tier: Tier) -> Sub {
             c.pers_enc = enc::PE_INDIRECT | enc::PE_PCREL | enc::PE_SDATA4;
             c.pers_raw = (-0x1234i64) as u64;
             c.fde_enc = enc::PE_PCREL | enc::PE_SDATA4;
+            if (si + fmt64 as u64) % 2 == 1 {
+                // every other string: absolute, address-sized 'L' and 'R' pointers (their width is
+                // the CIE's address size)
+                c.lsda_enc = 0x00;
+                c.fde_enc = 0x00;
+            }
             c.insns = vec![Insn::DefCfa(7, 8)];
             let co = b.cie(&c);
             let mut f = FdeSpec::simple(co.off, 0x2000, 0x40, vec![Insn::AdvanceLoc(1), Insn::Nop], addr as usize);
@@ -586,7 +592,10 @@ fn sub_aug(_tier: Tier) -> Sub {
             let gb = scan::mk_bases(&bases, &Bases::default());
             let e_entries = entry_name(kind, "entries");
             ctx.eval(1);
-            let sc = with_sec!(kind, &bytes, big, addr, sec => guard(|| scan::scan(&sec, &gb, &bytes, 4)));
+            // a version 4 .debug_frame CIE carries its own address size: the section is configured
+            // with a DIFFERENT default there
+            let sect_addr = if kind == Kind::DebugFrame && version == 4 { 12 - addr } else { addr };
+            let sc = with_sec!(kind, &bytes, big, sect_addr, sec => guard(|| scan::scan(&sec, &gb, &bytes, 4)));
             let sc = match sc {
                 Ok(s) => s,
                 Err(p) => {
